@@ -1007,10 +1007,11 @@ func hoistIfInits(mod []*packages.Package, fset *token.FileSet, known map[string
 	}
 	type rewrite struct{ start, cond, end int }
 	for _, p := range mod {
-		// not in the BER codec: its bounds and progress proofs (C16) are interprocedural - they use
-		// proved post-conditions of the parsing helpers - and get weaker, not stronger, when the
-		// helpers' bodies are merged into ParseField
-		if strings.HasSuffix(p.PkgPath, "/cdr/asn") {
+		// the BER codec used to be left out here (a work-around for two refactorings of the ambitious
+		// corpus); an extracted `if x, err = helper(..); err != nil` in ParseField needs the move like
+		// any other package, and the C16 proofs hold on the merged body.  CHFCHECK_NO_ASN_IFHOIST=1
+		// restores the old behaviour for comparison
+		if strings.HasSuffix(p.PkgPath, "/cdr/asn") && os.Getenv("CHFCHECK_NO_ASN_IFHOIST") != "" {
 			continue
 		}
 		info := p.TypesInfo
